@@ -18,7 +18,7 @@
    Definitions only: proofs are in TlsPumpProofs.v. *)
 From AV Require Import Base.
 
-Definition byte := nat.
+Notation byte := nat (only parsing).
 
 (* ---------- the SSL-object boundary ---------- *)
 Inductive func := FHandshake | FRead (n : nat) | FWrite (item : list byte) | FUnwrap.
